@@ -81,7 +81,7 @@ PAIRS = [
     ("am_inst", "tsp", dict(base=True)),
     ("symnco", "tsp", dict(base=True)),
     ("ham", "pdp", dict(base=True)),
-    ("ptrnet", "tsp", dict(base=False)),
+    ("ptrnet", "tsp", dict(base=False, eval_kw="eval_tours")),
     ("matnet", "atsp", dict(base=True, rng_at_inference=True)),
     ("polynet", "tsp", dict(base=False, polynet=True)),
     ("polynet", "cvrp", dict(base=False, polynet=True)),
